@@ -66,12 +66,16 @@ def monSsQuote (amp : Nat) (decimals amounts : List Nat) (offerIdx askIdx offer 
 def monSsSwap (amp : Nat) (decimals before : List Nat) (offerIdx askIdx offer gross out : Nat) : Verdict :=
   let n := before.length
   let ann := amp * n
+  -- the offer is added and what leaves is subtracted, also when both are the same asset (a swap of an asset for
+  -- itself, which the code refuses: if it were executed, the pool would simply lose `out - offer`)
   let after := before.zipIdx.map fun x =>
-    if x.2 == offerIdx then x.1 + offer else if x.2 == askIdx then x.1 - out else x.1
+    let a := if x.2 == offerIdx then x.1 + offer else x.1
+    if x.2 == askIdx then a - out else a
   if (normBalances decimals before).any (· == 0) || (normBalances decimals after).any (· == 0) then none else
   let db := Spec.dFloorScaled ann (normBalances decimals before) SS_K
   let da := Spec.dFloorScaled ann (normBalances decimals after) SS_K
   if db ≤ da then none else
+  if offerIdx == askIdx then some "C03-ss-invariant" else
   let maxP := (listMax decimals).getD 0
   let scale := 10 ^ (maxP - decimals.getD askIdx 0) * SS_K
   let exact := exactOutK amp decimals before offerIdx askIdx offer
